@@ -219,7 +219,7 @@ CLAIMED = {
         'text': 'PARTIAL, with KNOWN FINDINGS.  Deductive proof (Verus) on verbatim bodies, with additional clauses kept in overlay contracts (contracts/*+c20.vc): parse_term computes the meaning of a text written on its own as specified '
                 '(trim; the first arithmetic infix makes a function of the two operands; otherwise the characters are classified - some digit / some period / anything else - and the text goes to make_term, the two-character escape resolved); '
                 'every element of a list that parse_linked_list returns is parse_term of its trimmed piece of the text between the brackets and every operand of an infix is parse_term of its side of the text (get_left_and_right): for these two contexts the property is proved '
-                'for every text that the context accepts (a list can still be REJECTED for a text that is fine on its own: quotation marks that do not enclose the whole text - a known finding); and for an ARGUMENT made of simple characters (no sign, white space, bracket, quotation mark, comma, backslash) the scan of parse_arguments is proved to keep the text and to classify it as parse_term does, so such an argument is the meaning of its text on its own. For the argument contexts (complex term, built-in, query) the property does NOT hold: parse_arguments classifies the characters of an argument itself, drops backslashes and never looks for an infix. '
+                'for every text that the context accepts (a list can still be REJECTED for a text that is fine on its own: quotation marks that do not enclose the whole text - a known finding); and for an ARGUMENT made of simple characters (no sign, white space, bracket, quotation mark, comma, backslash), with blanks before and after them as in `f(a, b)`, the scan of parse_arguments is proved to keep the text and to classify it as parse_term does, so such an argument is the meaning of its text on its own. For the argument contexts (complex term, built-in, query) the property does NOT hold: parse_arguments classifies the characters of an argument itself, drops backslashes and never looks for an infix. '
                 'The two obligations which say that this comes to the meaning of the piece on its own (#argument_not_infix, #argument_as_alone at both calls of make_term) fail on the unchanged tree and are refuted by inputs replayed on the real parsers; '
                 'they are recorded in known_findings.txt (a repair means one classification for all contexts and changes the accepted language in four ways; DESIGN 8.33). '
                 'A bounded exploration (c20_contexts: 207 fixed term texts and about 160 generated terms per seed in 22 contexts, thirteen of them with a sibling term before or after the text, against parse_term) passes over a deviation only if it is one of the recorded ones by context, shape of the text and both values, and reports every other one.',
